@@ -1,4 +1,5 @@
 import LenaModel.Model.C06
+import LenaModel.Model.C06Spec
 /-! # C06 — helper lemmas and specification vocabulary
 
 * order: `StrictInc`, `countLE` (number of edges not greater than a value) and the key fact
@@ -20,11 +21,6 @@ section Order
 variable {α : Type} [LT α] [LE α] [DecidableLT α] [DecidableLE α] [DecidableEq α]
   [Std.IsLinearOrder α] [Std.LawfulOrderLT α]
 
-/-- strictly increasing: every earlier element is `<` every later one -/
-def StrictInc (arr : List α) : Prop := arr.Pairwise (· < ·)
-
-/-- the number of edges not greater than `v` -/
-def countLE (arr : List α) (v : α) : Nat := arr.countP (fun e => decide (e ≤ v))
 
 theorem lt_trans' {a b c : α} (h1 : a < b) (h2 : b < c) : a < c := by grind
 theorem not_le_of_lt' {a b : α} (h : a < b) : ¬ b ≤ a := by grind
@@ -77,16 +73,6 @@ theorem le_iff_lt_countLE {v : α} : ∀ {arr : List α}, StrictInc arr → ∀ 
         simp [hc]; grind
 
 theorem countLE_le_length (arr : List α) (v : α) : countLE arr v ≤ arr.length := List.countP_le_length
-
-/-- the guess function stays within `[ind_min, ind_max]` at every state -/
-def GuessOK (guess : Nat → Nat → Int) : Prop :=
-  ∀ lo hi : Nat, lo ≤ hi → (lo : Int) ≤ guess lo hi ∧ guess lo hi ≤ (hi : Int)
-
-/-- the weakest form: the guess is within `[ind_min, ind_max]` at the states where the search for
-`val` in `arr` consults it, i.e. `ind_max − ind_min > 1` and `arr[ind_min] < val < arr[ind_max]` -/
-def GuessOKAt (arr : List α) (val : α) (guess : Nat → Nat → Int) : Prop :=
-  ∀ (lo hi : Nat) (h : hi < arr.length) (hl : lo + 1 < hi), arr[lo]'(by omega) < val → val < arr[hi] →
-    (lo : Int) ≤ guess lo hi ∧ guess lo hi ≤ (hi : Int)
 
 theorem GuessOK.at {guess : Nat → Nat → Int} (hg : GuessOK guess) (arr : List α) (val : α) :
     GuessOKAt arr val guess := fun lo hi _ hl _ _ => hg lo hi (by omega)
@@ -179,17 +165,6 @@ end Order
 variable {β : Type}
 
 /-! ## sums over nested arrays -/
-section Total
-variable [Add β] [Zero β]
-mutual
-def total : NArr β → β
-  | .leaf v => v
-  | .node xs => totalList xs
-def totalList : List (NArr β) → β
-  | [] => 0
-  | x :: xs => total x + totalList xs
-end
-end Total
 
 section Monoid
 variable [Lean.Grind.AddCommMonoid β]
@@ -286,20 +261,6 @@ end Walk2
 /-! ## regular shapes -/
 section Shape
 variable [Add β]
-
-/-- every index within its axis -/
-def InRange : List Int → List Nat → Prop
-  | [], [] => True
-  | i :: is, d :: ds => (0 ≤ i ∧ i < (d : Int)) ∧ InRange is ds
-  | _, _ => False
-
-instance : ∀ (is : List Int) (ds : List Nat), Decidable (InRange is ds)
-  | [], [] => isTrue trivial
-  | i :: is, d :: ds =>
-    have := instDecidableInRange is ds
-    by unfold InRange; exact inferInstance
-  | [], _ :: _ => isFalse (by simp [InRange])
-  | _ :: _, [] => isFalse (by simp [InRange])
 
 theorem hasShape_node {n : Nat} {ns : List Nat} {xs : List (NArr β)} :
     NArr.HasShape (n :: ns) (.node xs) ↔ xs.length = n ∧ ∀ x ∈ xs, NArr.HasShape ns x := by
@@ -537,21 +498,6 @@ section Cells
 variable {α : Type} [LT α] [LE α] [DecidableLT α] [DecidableLE α] [DecidableEq α]
   [Std.IsLinearOrder α] [Std.LawfulOrderLT α]
 
-/-- per axis: (number of edges not greater than the coordinate) − 1 -/
-def indices (axes : List (List α)) (xs : List α) : List Int :=
-  List.zipWith (fun arr x => (countLE arr x : Int) - 1) axes xs
-
-/-- number of bins per axis -/
-def dimsOf (axes : List (List α)) : List Nat := axes.map (fun a => a.length - 1)
-
-/-- the cell `idx` contains the point `xs`: in every dimension `k` the half-open interval
-`[axes[k][idx[k]], axes[k][idx[k]+1])` contains `xs[k]` -/
-def InCell : List (List α) → List α → List Nat → Prop
-  | [], [], [] => True
-  | arr :: axes, x :: xs, i :: idx =>
-    (∃ h : i + 1 < arr.length, arr[i] ≤ x ∧ x < arr[i + 1]) ∧ InCell axes xs idx
-  | _, _, _ => False
-
 theorem inCell_axis_iff {arr : List α} (hinc : StrictInc arr) (x : α) (i : Nat) :
     (∃ h : i + 1 < arr.length, arr[i] ≤ x ∧ x < arr[i + 1]) ↔
       (countLE arr x = i + 1 ∧ i + 1 < arr.length) := by
@@ -655,12 +601,6 @@ end Totality
 section Init
 variable {α : Type} [LT α] [LE α] [DecidableLT α] [DecidableLE α] [DecidableEq α]
   [Std.IsLinearOrder α] [Std.LawfulOrderLT α]
-
-/-- an axis of a histogram: at least two strictly increasing edges -/
-def ValidAxis (arr : List α) : Prop := 2 ≤ arr.length ∧ StrictInc arr
-
-/-- "strictly increasing finite edges in any dimension": at least one axis, every axis valid -/
-def ValidEdges (e : Edges α) : Prop := e.axes ≠ [] ∧ ∀ arr ∈ e.axes, ValidAxis arr
 
 theorem checkEdges1d_ok {arr : List α} (h : ValidAxis arr) : checkEdges1d arr = .ok () := by
   have h1 : ¬ arr.length ≤ 1 := by have := h.1; omega
@@ -772,11 +712,6 @@ theorem total_full_zero : ∀ ds : List Nat, total (NArr.full ds (0 : β)) = 0
 end InitTotal
 /-! ## the interpolation guess in exact arithmetic -/
 section Interp
-
-/-- the interpolation of hist_functions.py:206-210 in exact integer arithmetic: `ind_min +
-floor((ind_max − ind_min)·(val − arr[ind_min]) / (arr[ind_max] − arr[ind_min]))` -/
-def interpGuess (arr : List Int) (val : Int) (lo hi : Nat) : Int :=
-  (lo : Int) + (((hi : Int) - (lo : Int)) * (val - arr[lo]?.getD 0)) / (arr[hi]?.getD 0 - arr[lo]?.getD 0)
 
 /-- in exact arithmetic the interpolation guess is within `[ind_min, ind_max]` wherever the search
 consults it -/
